@@ -38,10 +38,17 @@ where
     self.fn_next.call_if_available(x);
   }
   pub fn error(&self, x: RxError) {
-    self.fn_error.call_and_clear_if_available(x);
+    // the first terminal claims the stream: no `next` and no other terminal after it
+    if self.fn_next.take() {
+      self.fn_complete.clear();
+      self.fn_error.call_and_clear_if_available(x);
+    }
   }
   pub fn complete(&self) {
-    self.fn_complete.call_and_clear_if_available(());
+    if self.fn_next.take() {
+      self.fn_error.clear();
+      self.fn_complete.call_and_clear_if_available(());
+    }
   }
   pub fn unsubscribe(&self) {
     self.fn_next.clear();
